@@ -1,8 +1,9 @@
 (* VtmfVerModel: executable model of the verifiers of the VTMF layer (C05, reused by C04).
    Anchors (src/BarnettSmartVTMF_dlog.cc): CheckElement 232-256, KeyGenerationProtocol_VerifyNIZK 331-370,
    KeyGenerationProtocol_VerifyKey_interactive 538-586 (and _publiccoin 588-640; since 0abf554 the key is membership-tested,
-   since de8b018 tmcg_mpz_fpowm reads the sign of x before writing res, so the aliased call fpowm(table, m_2, g, m_2, p) inverts), CP_Verify 690-752, OR_Verify 840-889 (since fae6d38 with the range check of c_1, c_2),
-   VerifiableMaskingProtocol_Verify 925-952, VerifiableRemaskingProtocol_Verify 1020-1052,
+   since de8b018 tmcg_mpz_fpowm reads the sign of x before writing res, so the aliased call fpowm(table, m_2, g, m_2, p) inverts), CP_Verify 690-752, OR_Verify 840-893 (since fae6d38 with the range check of c_1, c_2, since fdc4557 with the membership test of y_1, y_2),
+   VerifiableMaskingProtocol_Verify (since 38c5983 m is membership-tested), VerifiableRemaskingProtocol_Verify (since e22f683 the
+   original card is membership-tested as well),
    VerifiableDecryptionProtocol_Verify_Update 1083-1125; src/mpz_spowm.cc tmcg_mpz_fpowm 195-235.
    The hash (tmcg_mpz_shash of the '|'-terminated hex serialisation, FsModel.fs_ser) is a function argument H on the
    list of hashed integers.  Outcomes: Accept/Reject (the bool), Throw (a std::exception leaves the verifier),
@@ -105,14 +106,14 @@ Definition cp_verify (H : list Z -> Z) (G : grp) (x y g' h' c r : Z) (fp : bool)
 
 (* ---- the three users of CP_Verify ---- *)
 Definition mask_verify (H : list Z -> Z) (G : grp) (m c1 c2 c r : Z) : verdict :=
-  if negb (check_element G c1 && check_element G c2) then Reject
+  if negb (check_element G m && check_element G c1 && check_element G c2) then Reject
   else match invm m (gp G) with
        | None => Reject
        | Some mi => cp_verify H G c1 ((mi * c2) mod gp G) (gg G) (gh G) c r true
        end.
 
 Definition remask_verify (H : list Z -> Z) (G : grp) (c1 c2 d1 d2 c r : Z) : verdict :=
-  if negb (check_element G d1 && check_element G d2) then Reject
+  if negb (check_element G c1 && check_element G c2 && check_element G d1 && check_element G d2) then Reject
   else match invm c1 (gp G) with
        | None => Reject
        | Some i1 =>
@@ -135,6 +136,7 @@ Definition or_hash_input (G : grp) (g1 y1 g2 y2 t1 t2 : Z) : list Z := [gp G; gq
 Definition or_verify (H : list Z -> Z) (G : grp) (y1 y2 g1 g2 c1 c2 r1 r2 : Z) : verdict :=
   if (gq G <=? Z.abs r1) || (gq G <=? Z.abs r2) then Reject
   else if (gq G <=? Z.abs c1) || (gq G <=? Z.abs c2) then Reject
+  else if negb (check_element G y1 && check_element G y2) then Reject
   else match mpz_powm y1 c1 (gp G), mpz_powm g1 r1 (gp G), mpz_powm y2 c2 (gp G), mpz_powm g2 r2 (gp G) with
        | Some a1, Some b1, Some a2, Some b2 =>
          let t1 := (a1 * b1) mod gp G in
